@@ -121,3 +121,37 @@ Fixpoint gc_sizeof (t : gtype) : Z :=
       let offs' := if (0 <? offs) && (last =? 0) then offs + 1 else offs in
       align_up offs' (fold_left (fun m f => Z.max m (gc_alignof f)) fs 1)
   end.
+
+(* ---------- gc sizes for a target platform (word size and maximal alignment) ---------- *)
+Record arch := { word : Z; max_align : Z }.
+Definition amd64 : arch := {| word := 8; max_align := 8 |}.
+Definition i386 : arch := {| word := 4; max_align := 4 |}.
+
+Fixpoint galign (a : arch) (t : gtype) : Z :=
+  match t with
+  | TBool | TInt8 => 1
+  | TInt16 => 2
+  | TInt32 | TFloat32 | TComplex64 => 4
+  | TInt64 | TFloat64 | TComplex128 => Z.min 8 (max_align a)
+  | TArray _ e => galign a e
+  | TStruct fs => fold_left (fun m f => Z.max m (galign a f)) fs 1
+  | _ => word a
+  end.
+
+Fixpoint gsize (a : arch) (t : gtype) : Z :=
+  match t with
+  | TBool | TInt8 => 1
+  | TInt16 => 2
+  | TInt32 | TFloat32 => 4
+  | TInt64 | TFloat64 | TComplex64 => 8
+  | TComplex128 => 16
+  | TInt | TUintptr | TUnsafePointer | TPointer | TMap | TChan | TFunc => word a
+  | TString | TInterface => 2 * word a
+  | TSlice => 3 * word a
+  | TArray n e => if n <=? 0 then 0 else n * gsize a e
+  | TStruct fs =>
+      let '(offs, last) := fold_left (fun st f => let o := align_up (fst st) (galign a f) in
+                                                  (o + gsize a f, gsize a f)) fs (0, 1) in
+      let offs' := if (0 <? offs) && (last =? 0) then offs + 1 else offs in
+      align_up offs' (fold_left (fun m f => Z.max m (galign a f)) fs 1)
+  end.
